@@ -19,7 +19,11 @@ if go test -vet=off -count=1 -run 'Seed|Demo' ./$PKG/ > $OUT/demo_without.log 2>
 rm -f $WT/$PKG/zz_seed_demo_test.go
 if git apply $SD/patch.diff; then R_APPLY=ok; fi
 if go build ./... > $OUT/build.log 2>&1; then R_BUILD=ok; fi
-if go test -vet=off -count=1 ./... > $OUT/suite_with.log 2>&1; then R_SUITE=pass; fi
+if go test -vet=off -count=1 ./... > $OUT/suite_with.log 2>&1; then R_SUITE=pass; else
+  # timing-sensitive repo tests can flake while other checks load the machine: re-run only the failing packages once
+  FP=$(grep '^FAIL\s' $OUT/suite_with.log | awk '{print $2}' | sed "s#github.com/tmpim/casket#.#" | sort -u | tr '\n' ' ')
+  if [ -n "$FP" ] && go test -vet=off -count=1 $FP > $OUT/suite_with_retry.log 2>&1; then R_SUITE="pass (first run failed in $FP under load; passed when re-run)"; fi
+fi
 cp $SD/demo_test.go $WT/$PKG/zz_seed_demo_test.go
 if go test -vet=off -count=1 -run 'Seed|Demo' ./$PKG/ > $OUT/demo_with.log 2>&1; then R_DEMO_WITH=pass; else R_DEMO_WITH=fail; fi
 rm -f $WT/$PKG/zz_seed_demo_test.go
@@ -27,11 +31,6 @@ rm -f $WT/$PKG/zz_seed_demo_test.go
 cd /verif && VERIF_REPO=$WT timeout 1500 ./bin/verif check $PROP --evidence-dir $OUT > $OUT/check_with.log 2>&1; RC=$?
 cd /; git -C /repo worktree remove --force $WT
 DET=$(grep -c '^VIOLATION' $OUT/check_with.log)
-cat > $OUT/meta.json <<EOM
-{"property":"$PROP","name":"$NAME","demo_package":"$PKG",
- "confirmed":{"patch_applies":"$R_APPLY","builds":"$R_BUILD","full_suite_with_patch":"$R_SUITE","demo_without_patch":"$R_DEMO_WITHOUT","demo_with_patch":"$R_DEMO_WITH"},
- "ran":["go test -vet=off -count=1 ./... (with patch)","go test -run 'Seed|Demo' ./$PKG/ (with and without patch)","VERIF_REPO=<patched scratch worktree> ./bin/verif check $PROP"],
- "check_exit":$RC,"violations_reported":$DET}
-EOM
+python3 /verif/tools/seed_meta.py "$PROP" "$NAME" "$PKG" "$R_APPLY" "$R_BUILD" "$R_SUITE" "$R_DEMO_WITHOUT" "$R_DEMO_WITH" "$RC" "$DET"
 echo "$NAME: apply=$R_APPLY build=$R_BUILD suite=$R_SUITE demo_without=$R_DEMO_WITHOUT demo_with=$R_DEMO_WITH check_exit=$RC violations=$DET"
 grep '^VIOLATION\|harness=' $OUT/check_with.log | head -4 | cut -c1-200
